@@ -20,7 +20,7 @@ LEVEL = "exploration"
 TECHNIQUE = "deterministic simulation: foreign-server streams (as C15) delivered to the real client while callbacks with every filter combination (plain, coroutine, raising) are registered and removed between deliveries; each callback's log is compared with the events an independent reference interpreter derives from consecutive snapshots; per-object value/state chains are checked"
 RULE = ("scenario = message stream as in C15 x callback operations between deliveries: onevent(device/vector/element each absent, matching or "
         "non-matching; event type in {Base, Value, State, Definition}; plain | coroutine | raising RuntimeError | raising asyncio.CancelledError), rmonevent(uuid), rmonevent(criteria) x "
-        "world {network client, in-process snooper} x fragmentation; distinct = (filter shapes, callback kinds, removal kinds, situations); "
+        "delivery {one message per quiescence, bursts} x world {network client, in-process snooper} x fragmentation; distinct = (filter shapes, callback kinds, removal kinds, situations); "
         "non-trivial = at least one callback received at least one event and at least one callback operation happened mid-stream")
 COMPONENTS = {
     "real": ["indi.client.client (onevent/rmonevent/trigger_event/_CallbackConfig)", "indi.client events/vectors/elements/device", "indi.transport.client.tcp + Buffer",
